@@ -318,9 +318,21 @@ def check(rec):
         if any(ev[3] == actor and ev[4] in ("end", "interrupted") and ev[4] == "end"
                for ev in rec.trace[:mark]):
             continue                 # the victim's process had finished: nobody to interrupt
-        want.append((actor, ("preempted", model.req[by]["actor"], since, "R")))
-    if sorted(seen, key=repr) != sorted(want, key=repr):
-        bad("preemption", "observed preemptions %r, reference %r" % (seen, want))
+        when = rec.trace[min(mark, len(rec.trace) - 1)][2] if rec.trace else None
+        want.append((actor, ("preempted", model.req[by]["actor"], since, "R"), when))
+    ended_at = {ev[3]: ev[2] for ev in rec.trace if ev[4] == "end"}
+    for actor in sorted({a for a, _ in seen} | {a for a, _, _ in want}):
+        mine = [report for a, report in seen if a == actor]
+        theirs = [(report, when) for a, report, when in want if a == actor]
+        expected = [report for report, _ in theirs]
+        ok = mine == expected[:len(mine)] and all(
+            # an interrupt still pending when the process ends in that time step is dropped
+            # ("one per yield ... ignored for a finished process", C18)
+            ended_at.get(actor) == when for _, when in theirs[len(mine):])
+        if not ok:
+            bad("preemption", "%s: observed preemptions %r, reference %r"
+                % (actor, mine, expected))
+            break
     # at quiescence nothing grantable is left waiting
     probe = Model(model.kind, model.capacity)
     probe.__dict__.update({k: (list(v) if isinstance(v, list) else dict(v) if isinstance(v, dict)
